@@ -1,1 +1,84 @@
-"""Repository knowledge tables shared by rule modules."""
+"""Repository-independent reference tables shared by rule modules (std library behaviour)."""
+import re
+
+
+def _base(q):
+    """strip template arguments: std::vector<int>::at -> std::vector<>::at"""
+    out = []
+    depth = 0
+    for ch in q:
+        if ch == "<":
+            if depth == 0:
+                out.append("<>")
+            depth += 1
+        elif ch == ">":
+            depth -= 1
+        elif depth == 0:
+            out.append(ch)
+    return "".join(out).replace("operator<>", "operator<")
+
+
+STD_EXCEPTION_BASES = {
+    "std::runtime_error": ["std::exception"],
+    "std::logic_error": ["std::exception"],
+    "std::invalid_argument": ["std::logic_error"],
+    "std::out_of_range": ["std::logic_error"],
+    "std::length_error": ["std::logic_error"],
+    "std::domain_error": ["std::logic_error"],
+    "std::future_error": ["std::logic_error"],
+    "std::range_error": ["std::runtime_error"],
+    "std::overflow_error": ["std::runtime_error"],
+    "std::underflow_error": ["std::runtime_error"],
+    "std::system_error": ["std::runtime_error"],
+    "std::ios_base::failure": ["std::system_error"],
+    "std::bad_cast": ["std::exception"],
+    "std::bad_any_cast": ["std::bad_cast"],
+    "std::bad_alloc": ["std::exception"],
+    "std::bad_function_call": ["std::exception"],
+    "std::bad_typeid": ["std::exception"],
+    "std::bad_weak_ptr": ["std::exception"],
+    "std::bad_exception": ["std::exception"],
+    "std::bad_optional_access": ["std::exception"],
+}
+
+# std functions whose failure mode is an exception reachable with ordinary (non resource-exhaustion) inputs
+_EXT_THROWS = [
+    (r"^std::sto(i|l|ll|ul|ull|f|d|ld)$", ["std::invalid_argument", "std::out_of_range"]),
+    (r"^std::basic_string<>::(at|substr|erase|insert|replace|compare|copy)$", ["std::out_of_range"]),
+    (r"^std::basic_string_view<>::(at|substr|compare|copy)$", ["std::out_of_range"]),
+    (r"^std::(vector|deque|array|map|unordered_map)<>::at$", ["std::out_of_range"]),
+    (r"^std::function<>::operator\(\)$", ["std::bad_function_call"]),
+    (r"^std::future<>::get$", ["<unknown>"]),
+    (r"^std::shared_future<>::get$", ["<unknown>"]),
+    (r"^std::any_cast<>$", ["std::bad_any_cast"]),
+    (r"^std::get<>$", []),
+    (r"^std::rethrow_exception$", ["<unknown>"]),
+]
+_EXT_THROWS = [(re.compile(p), v) for p, v in _EXT_THROWS]
+
+# std algorithms that invoke the callables passed to them before returning
+_INVOKERS = re.compile(r"^std::(any_of|all_of|none_of|for_each|find_if|find_if_not|count_if|transform|sort|stable_sort|"
+                       r"remove_if|accumulate|generate|generate_n|copy_if|partition|min_element|max_element|"
+                       r"lower_bound|upper_bound|equal|mismatch|call_once|invoke|apply|async)<>$")
+_OPAQUE = re.compile(r"^std::(function<>::operator\(\)|future<>::get|shared_future<>::get|invoke<>|async<>)$")
+
+
+def ext_throws(q):
+    b = _base(q)
+    for rx, v in _EXT_THROWS:
+        if rx.search(b):
+            return v
+    return None
+
+
+def invokes_callable_args(q):
+    return bool(_INVOKERS.search(_base(q)))
+
+
+def is_opaque_call(q):
+    return bool(_OPAQUE.search(_base(q)))
+
+
+# member functions of std containers / iterators whose precondition violation is undefined behaviour
+UB_MEMBERS = {"front", "back", "pop_back", "pop_front", "operator[]", "erase", "insert", "operator*", "operator++",
+              "operator--", "operator->"}
